@@ -130,6 +130,17 @@ ConfFrame(nd) == nd.a \in FrameActs /\ HasPre(nd) =>
   LET p == Pre(nd) IN
   /\ Len(nd.st.gauges) = Len(p.gauges) /\ \A k \in 1..Len(p.gauges) : GaugeEq(p.gauges[k], nd.st.gauges[k])
   /\ nd.st.cust = p.cust /\ nd.st.epochs = p.epochs /\ nd.st.ext = p.ext
+(* activation of an external reward program: the funding goes to custody, one program is added *)
+ExtActs == {"ExtLocker", "ExtLend"}
+ConfExt(nd) == nd.a \in ExtActs =>
+  LET p == Pre(nd) IN
+  /\ Len(nd.st.gauges) = Len(p.gauges) /\ \A k \in 1..Len(p.gauges) : GaugeEq(p.gauges[k], nd.st.gauges[k])
+  /\ nd.st.epochs = p.epochs
+  /\ IF nd.args.ok
+     THEN /\ Len(nd.st.ext) = Len(p.ext) + 1
+          /\ LEq(nd.st.cust[nd.args.denom], LAdd(p.cust[nd.args.denom], nd.args.total))
+          /\ \A d \in Range(nd.st.denoms) : d # nd.args.denom => nd.st.cust[d] = p.cust[d]
+     ELSE nd.st.ext = p.ext /\ nd.st.cust = p.cust
 (* the recorded withdrawable amounts never exceed the proportional share of the reserves *)
 ConfValue(nd) == ~IsSplit(nd) =>
   \A u \in 1..Len(nd.st.users), q \in 1..Len(nd.st.pools) :
@@ -138,7 +149,7 @@ ConfValue(nd) == ~IsSplit(nd) =>
      /\ LLe(LMul(pos.xb, pl.ps), LMul(pl.ry, pos.pc))
 
 (* ------------------------------------------------------------------ judge *)
-Formulas == <<"Conf_Split", "Conf_Create", "Conf_Block", "Conf_Frame", "Conf_Value",
+Formulas == <<"Conf_Split", "Conf_Create", "Conf_Block", "Conf_Frame", "Conf_Value", "Conf_Ext",
               "C19_SplitSum", "C19_Cumulative", "C19_CustodyRoot", "C19_CustodyDelta", "C19_EpochCap", "C19_OnlyInEpoch", "C19_ProRata">>
 Holds(f, i) ==
   LET nd == Nd(i) IN
@@ -147,6 +158,7 @@ Holds(f, i) ==
     [] f = "Conf_Block" -> ConfBlock(nd)
     [] f = "Conf_Frame" -> ConfFrame(nd)
     [] f = "Conf_Value" -> ConfValue(nd)
+    [] f = "Conf_Ext" -> ConfExt(nd)
     [] f = "C19_SplitSum" -> C19SplitSum(nd)
     [] f = "C19_Cumulative" -> C19Cumulative(nd)
     [] f = "C19_CustodyRoot" -> C19CustodyRoot(nd)
@@ -197,7 +209,9 @@ Stats == PrintT(<<"STATS", [nodes |-> NLog,
    noPriceEpochs |-> GaugeEpochs(PNoPrice),
    stuckEpochs |-> GaugeEpochs(PStuck),
    extPayBlocks |-> Cardinality({i \in Blocks : ExtPaid(i)}),
-   extPrograms |-> Cardinality({i \in 1..NLog : Nd(i).a = "ExtLocker" /\ Nd(i).args.ok}),
+   extPrograms |-> Cardinality({i \in 1..NLog : Nd(i).a \in ExtActs /\ Nd(i).args.ok}),
+   lendPrograms |-> Cardinality({i \in 1..NLog : Nd(i).a = "ExtLend" /\ Nd(i).args.ok}),
+   lendPayBlocks |-> Cardinality({i \in Blocks : Nd(i).res.lendPaid}),
    bigStates |-> Cardinality({i \in 1..NLog : ~IsSplit(Nd(i)) /\ \E k \in 1..Len(Nd(i).st.gauges) : IsBig(Nd(i).st.gauges[k].dep)}),
    roots |-> Cardinality({i \in 1..NLog : Nd(i).a = "Init"}) ]>>)
 AllSeen == Stats /\ TLCGet("stats").distinct = NLog + Chunks + 1
